@@ -509,7 +509,7 @@ fn(OP, 'map_operations', trait='Functor', self_ty='Optic', status='P', props=['C
             lemma_interleave_offsets(fb.sources.table@, rb.sources.table@, s2b, nb);
             assert(d.src_type() =~= fa.values@ + ra.values@);
             assert(d.tgt_type() =~= fb.values@ + rb.values@);'''),
-           ('before:lhs.compose(&d).unwrap().compose(&rhs).unwrap()', '''let fobj = |o: O1| this.fwd.obj(o); let robj = |o: O1| this.rev.obj(o); let obj2 = |o: O1| this.fwd.obj(o) + this.rev.obj(o);
+           ('before:lhs.compose(&d)', '''let fobj = |o: O1| this.fwd.obj(o); let robj = |o: O1| this.rev.obj(o); let obj2 = |o: O1| this.fwd.obj(o) + this.rev.obj(o);
             lemma_interleaved_flat(lhs.src_type(), fa, ra, ops.a.values@, fobj, robj, obj2);
             lemma_interleaved_flat(rhs.tgt_type(), fb, rb, ops.b.values@, fobj, robj, obj2);
             assert forall|p: int| 0 <= p < ops.a.values@.len() implies obj2(#[trigger] ops.a.values@[p]).len() <= usize::MAX by { assert(seg_is(fa, p, fobj(ops.a.values@[p])) && seg_is(ra, p, robj(ops.a.values@[p]))); }
